@@ -281,3 +281,5 @@ def run(eng: Engine, ck: Check):
     sl = [x for x in calls_in(tk.node) if call_name(x) == 'sleep']
     ck.ob('R-C20-CAP', tk, tk.node, 'a waiting take_tokens sleeps INTERVAL and refills again (the wait is a polling loop, not a one-shot)', len(loops) == 1 and len(sl) == 1 and
           unparse(sl[0].args[0]) == 'INTERVAL', '', construct='take_tokens polls')
+    from . import defs as _d20
+    _d20.identity_semantics(eng, ck, 'R-C20-SHARED', [('PeerConnection', CONN)], 'set_*_speed_limit hands the new limiter to every connection in Network.peer_connections, which is kept exact by `in` / list.remove()')
